@@ -30,10 +30,19 @@ class Filter(object):
     def __init__(self, texts):
         self.texts = [bytes(t) for t in texts]
         self.rules = []
+        self.rest = []          # the same rule without its destination key (None when it has none)
         for t in self.texts:
-            r = mr.parse(t)
-            pairs = [(k, v) for k, v in r.d.items() if k != b"eavesdrop"] + [(b"eavesdrop", b"true")]
+            try:
+                d = mr.parse(t).d
+            except mr.RuleError as e:
+                # matchrules.parse() does not judge AddMatch of a well-known destination; for a monitor's filter
+                # the key is compared with the text of the DESTINATION header field (see verdict())
+                if e.kind != "unspecified:well-known-destination":
+                    raise
+                d = dict(mr.tokenize(t))
+            pairs = [(k, v) for k, v in d.items() if k != b"eavesdrop"] + [(b"eavesdrop", b"true")]
             self.rules.append(mr.Rule(pairs))
+            self.rest.append(mr.Rule([kv for kv in pairs if kv[0] != b"destination"]) if b"destination" in d else None)
 
     def empty(self):
         return not self.rules
@@ -45,9 +54,31 @@ class Filter(object):
         return "|".join(sorted(",".join(sorted(k.decode() for k in r.d if k != b"eavesdrop")) for r in self.rules))
 
     def matches(self, view, owners):
+        return self.verdict(view, owners) is True
+
+    def has_destination(self):
+        return any(r is not None for r in self.rest)
+
+    def verdict(self, view, owners):
+        """True / False, or None where the reference does not judge.
+
+        destination= is compared with the text of the message's DESTINATION field.  The one case left
+        unjudged: the message is being delivered to a connection (view['recipient'], its unique name) under
+        another of that connection's names than the one the rule gives - the specification's table speaks of
+        unique names only, and a bus may equally well compare by ownership there."""
         if not self.rules:
             return True
-        return any(r.matches(view, owners) for r in self.rules)
+        unknown = False
+        for r, rest in zip(self.rules, self.rest):
+            if rest is None or view["destination"] is None or view["destination"] == r.d[b"destination"]:
+                if r.matches(view, owners):
+                    return True
+                continue
+            want = r.d[b"destination"]
+            rcp = view.get("recipient")
+            if rcp is not None and (want == rcp or owners.get(want) == rcp) and rest.matches(view, owners):
+                unknown = True
+        return None if unknown else False
 
 
 def _args_view(msg):
